@@ -20,7 +20,7 @@ def on_line(p, lo, hi, st):
 
 
 def penny(x):
-    return exists_int(lambda k: x * 100 == k)
+    return is_int(x * 100)
 
 
 def eff_size(ot):
